@@ -219,6 +219,35 @@ def lang_search(pattern, narrow=False):
     return r if start else z3.Concat(anyc, r)
 
 
+def _single_char_alternatives(real):
+    """['\r', '\n'] for patterns like  \r|\n  or  [\r\n]  (no anchors, no groups); else None."""
+    try:
+        t, items, body, start, end = translate(real)
+    except core.Unsupported:
+        return None
+    if start or end or real.groups or len(items) != 1:
+        return None
+    op, av = items[0]
+    out = []
+    if op is C.BRANCH:
+        for alt in av[1]:
+            if len(alt) == 1 and alt[0][0] is C.LITERAL:
+                out.append(chr(alt[0][1]))
+            else:
+                return None
+        return out
+    if op is C.IN:
+        for o2, a2 in av:
+            if o2 is C.LITERAL:
+                out.append(chr(a2))
+            else:
+                return None
+        return out
+    if op is C.LITERAL:
+        return [chr(av)]
+    return None
+
+
 class SMatch:
     """match object over symbolic groups (top-level concatenation patterns with a unique split)."""
     def __init__(self, sp, subject, parts):
@@ -273,7 +302,15 @@ class SPattern:
         """fork on match / no match; on match build the group split."""
         c = cx()
         lang = {"fullmatch": lang_fullmatch, "match": lang_match, "search": lang_search}[mode](self.real, s.narrow)
-        if not c.branch(self._mem(s, lang)):
+        chars = _single_char_alternatives(self.real) if mode == "search" else None
+        if chars is not None:
+            # search for one of a few literal characters: the same condition as `contains`, which combines
+            # with other string facts much better than a regex membership
+            c.use_model("regex %r as an SMT regular expression (A-REGEX)" % (self.real.pattern,))
+            cond = z3.Or([z3.Contains(s.t, z3.StringVal(ch)) for ch in chars])
+        else:
+            cond = self._mem(s, lang)
+        if not c.branch(cond):
             return None
         if self.real.groups == 0:
             return SMatch(self, s, [])
